@@ -9,7 +9,9 @@
 (*   view   projection of Dec(ty,item) that the Rust value exposes           *)
 (*   reenc  Ser(Enc(ty, Dec(ty,item))): bytes the re-encoding must have      *)
 (*   lh     same with container length-head widths forgotten (classifier)    *)
+(*   lhw    the container wrappers that meet a wide definite length head     *)
 (*   mut    KeepRaw only: bytes after deref_mut().push(3)                    *)
+(*   mut_lh / mut_lhw   the same two classifiers for the mutated value       *)
 EXTENDS CborHelpersDom, Json
 
 Row(t, i) ==
@@ -19,8 +21,11 @@ Row(t, i) ==
         view  |-> IF a THEN View(t, v) ELSE <<>>,
         reenc |-> IF a THEN Ser(Enc(t, v)) ELSE <<>>,
         lh    |-> IF a THEN Ser(EncX(t, v, TRUE)) ELSE <<>>,
+        lhw   |-> IF a /\ Preserving(t) THEN WideHeads(t, i) ELSE {},
         mutable |-> a /\ CanMutate(t),
-        mut   |-> IF a /\ CanMutate(t) THEN Ser(Enc(t, Mutate(t, v))) ELSE <<>>]
+        mut   |-> IF a /\ CanMutate(t) THEN Ser(Enc(t, Mutate(t, v))) ELSE <<>>,
+        mut_lh |-> IF a /\ CanMutate(t) THEN Ser(EncX(t, Mutate(t, v), TRUE)) ELSE <<>>,
+        mut_lhw |-> IF a /\ CanMutate(t) THEN WideHeads(t.e, i) ELSE {}]
 
 ASSUME \A k \in 1..Len(Types) : \A i \in Dom(Types[k]) : PrintT(<<"VEC", ToJson(Row(Types[k], i))>>)
 =============================================================================
